@@ -53,6 +53,13 @@ def leaves(T):
         ("BoundaryType:inf-incl", lambda: B("float", 0.0, B.INFINITY, True, True)),
         ("BoundaryType:inf-excl", lambda: B("float", 0.0, B.INFINITY, True, False)),
         ("BoundaryType:neginf", lambda: B("float", B.NEGATIVE_INFINITY, 1.0, False, True, "in the range (negative_infinity, 1]")),
+        # every combination of finite / infinite bounds and brackets (the brackets next to an infinite bound included)
+        *[
+            (f"BoundaryType:grid:{'neginf' if lo else 'fin'}{'[' if li else '('}{']' if hi_i else ')'}{'inf' if hi else 'fin'}",
+             (lambda lo=lo, hi=hi, li=li, hi_i=hi_i: B("float", B.NEGATIVE_INFINITY if lo else 0.0, B.INFINITY if hi else 5.0, li, hi_i)))
+            for lo in (False, True) for hi in (False, True) for li in (False, True) for hi_i in (False, True)
+            if (lo, hi, li, hi_i) not in ((False, False, True, True), (False, False, True, False), (False, True, True, True), (False, True, True, False))
+        ],
         ("TypeVarType:free", lambda: T.TypeVarType("T")),
         ("TypeVarType:bound", lambda: T.TypeVarType("T", T.NamedType("int", "builtins.int"))),
     ]
